@@ -172,6 +172,12 @@ impl Tileset<RawPixels> {
         let tile_count = reader.dword()?;
         let tile_width = reader.word()?;
         let tile_height = reader.word()?;
+        if tile_width == 0 || tile_height == 0 {
+            return Err(AsepriteParseError::InvalidInput(format!(
+                "Invalid tile size {}x{} in tileset {}",
+                tile_width, tile_height, id
+            )));
+        }
         let tile_size = TileSize {
             width: tile_width,
             height: tile_height,
@@ -192,8 +198,15 @@ impl Tileset<RawPixels> {
                 None
             } else {
                 let _compressed_length = reader.dword()?;
-                let expected_pixel_count =
-                    (tile_count * (tile_height as u32) * (tile_width as u32)) as usize;
+                let expected_pixel_count = tile_count
+                    .checked_mul(tile_height as u32)
+                    .and_then(|count| count.checked_mul(tile_width as u32))
+                    .ok_or_else(|| {
+                        AsepriteParseError::InvalidInput(format!(
+                            "Tileset {} is too large: {} tiles of size {}x{}",
+                            id, tile_count, tile_width, tile_height
+                        ))
+                    })? as usize;
                 RawPixels::from_compressed(reader, pixel_format, expected_pixel_count).map(Some)?
             }
         };
